@@ -662,8 +662,10 @@ def scenario_unkeyable(run, nseq, length):
         for km in kms:
             for backend in ('plain', 'dictarch', 'dir'):
                 for _ in range(nseq):
-                    cfg = py_cfg('safe', alg, rng.choice([1, 2]), backend, km, purge=rng.random() < 0.3,
-                                 unkey=rng.choice(['type', 'value', 'attr', 'runtime', 'lookuperr', 'recursion']))
+                    kinds = ['type', 'value', 'attr', 'runtime', 'lookuperr', 'recursion']
+                    if km[0] in ('pickle', 'dill'):
+                        kinds += ['nopickle', 'nopickle']     # printable and hashable, but the serializer refuses it
+                    cfg = py_cfg('safe', alg, rng.choice([1, 2]), backend, km, purge=rng.random() < 0.3, unkey=rng.choice(kinds))
                     ops = []
                     for o in cd.random_ops(rng, length, cfg, 9, 'mixed'):
                         if o['op'] == 'call' and rng.random() < 0.35:
